@@ -44,21 +44,20 @@ theorem rep_snapshot {T : List Tx} {fs : FS} {m : Mem} {cs : List CTx} {c : Nat}
       rw [hsc]; show m.nextTxid ≤ max 0 m.nextTxid; omega
   · obtain ⟨covered, h1, h2, h3⟩ := h.store.props
     have hruns' : logRuns (scan (closeCs m)).ckpt (closeCs m) = [] := logRuns_sys _ _ _ _ _ _ _
-    refine ⟨?_, h.store.segKeys, h.store.treeKeys, ?_, by rw [hruns']; intro q hq; simp at hq, ?_, ?_⟩
+    refine ⟨?_, h.store.segKeys, h.store.treeKeys, ?_, by rw [hruns']; intro q hq; simp at hq, ?_⟩
     · rw [hsc]; show ∀ k ∈ m.segs.map (·.1), _; rw [hsegs]; exact h.store.segs
     · intro e
       rw [hruns', hsc]
       show e ∈ (m.segs.map (·.1)).flatMap (segEdges fs.pd) ++ [] ↔ _
       rw [hsegs, ← h.store.edges e, hlr]
       simp
-    · rw [hsc]; show m.ptop = false; rw [h.mptop]; exact h.store.ptop
     · refine ⟨covered, ?_, ?_, ?_⟩
       · intro q hq
         rcases h1 q hq with h' | h'
         · rw [hlr] at h'; simp at h'
         · exact Or.inr h'
       · rw [hsc]; show m.proot = 0 → _; rw [h.mroot]; exact h2
-      · rw [hsc]; show m.proot ≠ 0 → ∃ t, treeFind fs.pd m.proot = some t ∧ _; rw [h.mroot]; exact h3
+      · rw [hsc]; show m.proot ≠ 0 → ∃ t, treeFind fs.pd m.proot = some t ∧ TreeOK _ _ m.ptop t; rw [h.mroot, h.mptop]; exact h3
 
 theorem safeAlong_noop {P : FS → Prop} {fs : FS} {s : Step} {S : List Step} (hs : fs.step s = fs) (h : P fs)
     (hr : SafeAlong P fs S) : SafeAlong P fs (s :: S) :=
